@@ -424,6 +424,7 @@ def build_replay(pid, unit):
     inc = ['-I' + os.path.join(REPO, p) for p in (
         '', 'bluetoe', 'bluetoe/utility/include', 'bluetoe/link_layer/include', 'bluetoe/sm/include',
         'bluetoe/bindings', 'bluetoe/bindings/nordic/include', 'bluetoe/services')]
+    inc += ['-I' + os.path.join(REPO, p) for p in rp.get('repo_includes', [])]
     inc += ['-I' + os.path.join(VERIF, 'replay')]
     objs = []
     for cs in rp.get('c_sources', []):
